@@ -1,7 +1,7 @@
 (* RunConformInitialFlags.v -- LargeMicroStep::init (Chart.flatten) flags the transitions of <history> and <initial>
    elements: for every document the condition init_flagsb of RunConformInitialWf.v holds, so it is no hypothesis of
    the theorems about flatten.  Proofs only. *)
-From V Require Import Base NameMatch Chart Exec Large LargeLemmas SetLemmas LargeCacheLemmas FlattenWfStruct.
+From V Require Import Base NameMatch Chart Exec Large LargeLemmas SetLemmas LargeCacheLemmas FlattenWfStruct MicroConformCompose.
 Local Open Scope nat_scope.
 
 Lemma fs_type_flatten late t s : s < nstates (flatten late t) ->
@@ -45,4 +45,31 @@ Proof.
   unfold type_of in Hp. destruct (t_kind (fst (nth x nodes (root, None)))); cbn in *; try reflexivity; try discriminate.
   - destruct (has_proper_child _); discriminate.
   - destruct (has_proper_child _); discriminate.
+Qed.
+
+(* the completion of a compound state is an ascending list (getCompletion returns a flat_set) *)
+Lemma completion_of_compound_sorted nodes ids i t p kid : type_of t = FCompound -> ssorted (completion_of nodes ids i t p kid).
+Proof.
+  unfold type_of, completion_of. destruct (t_kind t); try discriminate; intros _.
+  all: destruct (t_initattr t); [apply ssorted_set_of_list|].
+  all: destruct (find _ (combine (t_kids t) kid)) as [q|]; [cbn; split; [intros y [] | exact I]|].
+  all: destruct (find _ (combine (t_kids t) kid)) as [q|]; [cbn; split; [intros y [] | exact I] | exact I].
+Qed.
+
+Theorem flatten_compound_completion_sorted late t s :
+  fs_type (st (flatten late t) s) = FCompound -> ssorted (fs_completion (st (flatten late t) s)).
+Proof.
+  intros Hk.
+  assert (Hs : s < nstates (flatten late t)).
+  { destruct (Nat.lt_ge_cases s (nstates (flatten late t))) as [H|H]; [exact H|].
+    unfold st in Hk. rewrite nth_overflow in Hk by exact H. discriminate. }
+  revert Hk Hs. unfold nstates, st, flatten. cbn [fc_states]. rewrite map_length, combine_length, seq_length, Nat.min_id.
+  intros Hk Hs. revert Hk.
+  set (nodes := doc_nodes (resort t) 0 None) in *.
+  set (g := fun p : tree * option nat * nat => let '(t0, parent, i) := p in _).
+  rewrite (nth_indep _ dummy_state (g ((resort t, None), 0))) by (now rewrite map_length, combine_length, seq_length, Nat.min_id).
+  rewrite map_nth, combine_nth by (now rewrite seq_length).
+  rewrite seq_nth by exact Hs. cbn [plus].
+  destruct (nth s nodes (resort t, None)) as [t1 p1]. unfold g. cbn [fs_type fs_completion]. intros Hk.
+  now apply completion_of_compound_sorted.
 Qed.
